@@ -92,6 +92,10 @@ def cases(tier, seed):
             for nmol in (1, 2, 3):
                 for rot in ("cube0", "gen0"):
                     out.append({"family": "projection", "tshape": list(ts), "order": order, "nmol": nmol, "rot": rot})
+                    # pixel sizes other than 1 nm and molecules deep in the volume (z up to 52 px)
+                    for scale, deep in ((0.5, False), (0.5, True), (0.25, True), (2.5, True), (1.0, True)):
+                        if rot == "cube0" or tier == "thorough":
+                            out.append({"family": "projection", "tshape": list(ts), "order": order, "nmol": nmol, "rot": rot, "scale": scale, "deep": deep})
     # template dtypes (density maps read from integer MRC files, boolean masks): same tomogram as with the float32 template
     for dt in ("float64", "int16", "uint8", "int8", "bool"):
         for order in (0, 1, 3):
@@ -182,9 +186,9 @@ def _history(case):
     ]
     res = history.explore(make, ops, max(case["depth"], 3), atol=1e-5, rtol=1e-5, mutators=mutators,
                           prefixes_only_from={"simulate", "simulate_2d", "tilt_series", "replace(order=1).simulate", "subset(a).simulate"} if case["depth"] < 3 else None)
-    if res["raises_alone"]:
-        raise RuntimeError(f"harness: operations {res['raises_alone']} raise on a fresh simulator")
     viol, seen = [], set()
+    for n_ in res["raises_alone"]:
+        viol.append((f"{ID}|history|raises-on-a-fresh-simulator|{n_.split('(')[0]}", f"simulator of order {order0}: {n_} raised {res['raises_alone_msg'][n_]}"))
     for hist, why in res["failures"]:
         sg = f"{ID}|history|{hist[-1].split('(')[0]}-after-{hist[-2].split('(')[0]}"
         if sg not in seen:
@@ -359,10 +363,13 @@ def _projection(case):
     order, nmol = case["order"], case["nmol"]
     rng = np.random.default_rng(9)
     tm = rng.random(ts).astype(np.float32)
+    scale, deep = case.get("scale", 1.0), case.get("deep", False)
     pos = np.array([[9.0, 8.3, 7.1], [12.4, 5.0, 11.6], [10.2, 12.7, 4.4]])[:nmol]
+    if deep:
+        pos = (pos + np.array([[43.0, 0, 0], [20.6, 0, 0], [0.0, 0, 0]])[:nmol])[::-1]
     rot = Rotation.from_matrix(np.array([data.rot_matrix(case["rot"])] * nmol))
-    mole = Molecules(pos, rot)
-    sim = _sim(order, 1.0)
+    mole = Molecules(pos * scale, rot)
+    sim = _sim(order, scale)
     sim.add_molecules(mole, tm)
     zsize = int(np.ceil(pos[:, 0].max() + sum(ts))) + 2
     vol3 = np.asarray(sim.simulate((zsize,) + VOL[1:])).astype(np.float64)
@@ -370,11 +377,11 @@ def _projection(case):
     ref = vol3.sum(axis=0)
     viol = []
     if p2.shape != ref.shape or np.abs(p2 - ref).max() > 1e-4 * max(1.0, np.abs(ref).max()):
-        viol.append((f"{ID}|projection|not-the-z-projection|nmol={'1' if nmol == 1 else '>1'}", f"{nmol} molecule(s), template {ts}, order {order}: simulate_2d mass {p2.sum():.3f}, z-projection of simulate mass {ref.sum():.3f}, max difference {np.abs(p2 - ref).max():.3g}"))
+        viol.append((f"{ID}|projection|not-the-z-projection|nmol={'1' if nmol == 1 else '>1'}" + ("" if not deep and scale == 1.0 else "|deep" if deep else "|scale"), f"{nmol} molecule(s) (z up to {pos[:, 0].max():.1f} px, scale {scale}), template {ts}, order {order}: simulate_2d mass {p2.sum():.3f}, z-projection of simulate mass {ref.sum():.3f}, max difference {np.abs(p2 - ref).max():.3g}"))
     # simulate_projection with the plane axes (y, x) and the plane centred on the image centre is the same z-projection, and a plane
     # moved by whole pixels moves the picture by whole pixels.  Checked on grid-coincident poses (integer positions, odd
     # template, cube rotations), where every interpolation order is exact and nothing is truncated.
-    if all(n % 2 == 1 for n in ts):
+    if all(n % 2 == 1 for n in ts) and scale == 1.0 and not deep:
         H, W = VOL[1:]
         ipos = np.array([[9.0, 8.0, 7.0], [12.0, 5.0, 12.0], [10.0, 13.0, 4.0]])[:nmol]
         irot = Rotation.from_matrix(np.array([data.rot_matrix("cube0" if case["rot"] == "cube0" else "cube5")] * nmol))
